@@ -125,6 +125,9 @@ def parseSrc : List String → Option (Src × List Nat × List String)
     -- values the harness shipped for them (bl, pi, pb, hx, pb16) are not used by the model any
     -- more — they are compared with the Lean functions on the `P` lines.
     let _ := (bl, pi, pb, hx, pb16)
+    -- ToLower(TrimSpace(s)) is computed for ASCII text; for other text the shipped value is used
+    let t := ParseInt.trimSpace bytes
+    let nm := if ParseInt.isASCII t then ParseInt.lowerASCII t else nm
     pure (.str (StrInfo.ofText bytes (bytesToString nm) pf pf32), [], rest)
   | k :: v :: rest => do
     let t ← IntTy.ofString? k
@@ -319,7 +322,7 @@ def showOptInt : Option Int → String
   | some v => toString v
   | none => "E"
 
-/-- `P <hex>`: trimmed text, ParseInt at 8/16/32/64 bits, ParseUint at 8/16/32/64 bits,
+/-- `P <hex>`: trimmed text, ToLower of it (ASCII text only), ParseInt at 8/16/32/64 bits, ParseUint at 8/16/32/64 bits,
     SetString base 10, the 0x-prefix test, SetString(trim[2:], 16). -/
 def textObs (bytes : List Nat) : String :=
   let t := ParseInt.trimSpace bytes
@@ -327,7 +330,8 @@ def textObs (bytes : List Nat) : String :=
   let pu := [8, 16, 32, 64].map (fun w => showOptInt ((ParseInt.parseUint t w).map Int.ofNat))
   let hp := ParseInt.hasHexPrefix t
   let b16 := if hp then showOptInt (ParseInt.parseBig (t.drop 2) 16) else "-"
-  "p " ++ hex t ++ " " ++ " ".intercalate pi ++ " " ++ " ".intercalate pu ++ " " ++
+  let nm := if ParseInt.isASCII t then "n" ++ hex (ParseInt.lowerASCII t) else "n*"
+  "p " ++ hex t ++ " " ++ nm ++ " " ++ " ".intercalate pi ++ " " ++ " ".intercalate pu ++ " " ++
     showOptInt (ParseInt.parseBig t 10) ++ " " ++ (if hp then "1" else "0") ++ " " ++ b16
 
 /-- `F <dec>`: FormatInt (when an int64), FormatUint (when a uint64), big.Int.String. -/
